@@ -347,14 +347,14 @@ impl TryFrom<&Constraint> for PerVisibleRangeConstraints {
                     ElementOrSetOperation::SetOperation(s) => {
                         let mut v: PerVisibleRangeConstraints =
                             fold_constraint_set(s, None, true)?.as_ref().try_into()?;
-                        if s.operator == SetOperator::Intersection
-                            && (matches!(s.base, SubtypeElements::SizeConstraint(_))
-                                | matches!(
-                                    *s.operant,
-                                    ElementOrSetOperation::Element(
-                                        SubtypeElements::SizeConstraint(_)
-                                    )
-                                ))
+                        let size_base = matches!(s.base, SubtypeElements::SizeConstraint(_));
+                        let size_operant = matches!(
+                            *s.operant,
+                            ElementOrSetOperation::Element(SubtypeElements::SizeConstraint(_))
+                        );
+                        // `SIZE (a) | SIZE (b)`, `SIZE (a) EXCEPT SIZE (b)` bound the size as well
+                        if (s.operator == SetOperator::Intersection && (size_base | size_operant))
+                            || (size_base && size_operant)
                         {
                             v.is_size_constraint = true;
                         }
@@ -512,9 +512,7 @@ fn fold_constraint_set(
     };
     match (&set.base, &folded_operant) {
         (base, Some(SubtypeElements::PermittedAlphabet(elem_or_set)))
-        | (SubtypeElements::PermittedAlphabet(elem_or_set), Some(base))
-        | (base, Some(SubtypeElements::SizeConstraint(elem_or_set)))
-        | (SubtypeElements::SizeConstraint(elem_or_set), Some(base)) => {
+        | (base, Some(SubtypeElements::SizeConstraint(elem_or_set))) => {
             return fold_constraint_set(
                 &SetOperation {
                     base: base.clone(),
@@ -524,6 +522,29 @@ fn fold_constraint_set(
                 char_set,
                 range_constraint,
             )
+        }
+        (SubtypeElements::PermittedAlphabet(elem_or_set), Some(operant))
+        | (SubtypeElements::SizeConstraint(elem_or_set), Some(operant)) => {
+            // unwrap the base and keep it on the left: EXCEPT is not commutative
+            let base = match &**elem_or_set {
+                ElementOrSetOperation::Element(e) => Some(e.clone()),
+                ElementOrSetOperation::SetOperation(s) => {
+                    fold_constraint_set(s, char_set, range_constraint)?
+                }
+            };
+            return match (base, &set.operator) {
+                (Some(base), _) => fold_constraint_set(
+                    &SetOperation {
+                        base,
+                        operator: set.operator.clone(),
+                        operant: Box::new(ElementOrSetOperation::Element(operant.clone())),
+                    },
+                    char_set,
+                    range_constraint,
+                ),
+                (None, SetOperator::Intersection) => Ok(Some(operant.clone())),
+                (None, _) => Ok(None),
+            };
         }
         (
             SubtypeElements::ContainedSubtype {
